@@ -103,7 +103,7 @@ def classify(seq, i, existed=True):
     return "other"
 
 
-async def run_seq(seq):
+async def run_seq(seq, snapshots_every_step=True):
     tmp = pathlib.Path(tempfile.mkdtemp(prefix="c18_"))
     try:
         disk = aioftp.PathIO()
@@ -116,7 +116,13 @@ async def run_seq(seq):
             existed = await disk.exists(tmp / op[1])
             a = await apply(disk, tmp, op)
             b = await apply(mem, mroot, op)
-            sa, sb = await snapshot(disk, tmp), await snapshot(mem, mroot)
+            last = i == len(seq) - 1
+            if snapshots_every_step or last:
+                # (reading a file back moves MemoryPathIO's shared cursor, so the run without intermediate snapshots
+                # is the one that can see cursor-dependent divergences)
+                sa, sb = await snapshot(disk, tmp), await snapshot(mem, mroot)
+            else:
+                sa = sb = None
             if a != b or sa != sb:
                 return i, (a, b), (sa, sb), existed
         return None
@@ -126,6 +132,8 @@ async def run_seq(seq):
 
 def check(seq):
     r = asyncio.run(run_seq([tuple(x) for x in seq]))
+    if r is None and len(seq) > 1:
+        r = asyncio.run(run_seq([tuple(x) for x in seq], snapshots_every_step=False))
     if r is None:
         return []
     i, outcomes, trees, existed = r
@@ -136,7 +144,9 @@ def search(rnd, n):
     found = {}
     tried = 0
     singles = [[op] for op in OPS]
-    pool = singles + [[rnd.choice(OPS), rnd.choice(OPS)] for _ in range(n)] + [[rnd.choice(OPS) for _ in range(3)] for _ in range(n // 2)]
+    # every ordered pair of operations on the same path (exhaustive), then random longer sequences
+    same = [[a, b] for a in OPS for b in OPS if a[1] == b[1] and len(a) == 2 and len(b) == 2]
+    pool = singles + same + [[rnd.choice(OPS), rnd.choice(OPS)] for _ in range(n)] + [[rnd.choice(OPS) for _ in range(3)] for _ in range(n // 2)]
     for seq in pool:
         tried += 1
         for b in check(seq):
